@@ -17,7 +17,7 @@ import (
 
 var c11atoms = []string{
 	"a", "b", "ab", "x", "A", ".", "[ab]", "[a-c]", "[^a]", `\d`, "(a)", "(?:a)", "(a|b)", "a|b", "(ab|c)", "(a|)",
-	"a?", "a*", "a+", "a{2}", "a{1,2}", "[ab]{2}", "(?i)a", "(?i:a)", "(?i)[a]", `\.`, `\|`, "", "[a]", "[aA]", `\n`, "a/b", `\x61`, "[ab][bc]",
+	"a?", "a*", "a+", "a{2}", "a{1,2}", "a{0}", `[^\s\S]`, "()", `\b`, "[ab]{2}", "(?i)a", "(?i:a)", "(?i)[a]", `\.`, `\|`, "", "[a]", "[aA]", `\n`, "a/b", `\x61`, "[ab][bc]",
 }
 
 // contexts wrap a body; %s is the body
